@@ -372,6 +372,9 @@ def run(ctx):
         side = rng.choice(["M-M", "M-M", "M-Q", "Q-M"])
         B = Mt(Q(y, ub), typed_sigma(y, sy))
         sy = core.sf(B.uncertainty.magnitude)
+        if rng.random() < 0.03 and (y != 0 or opname != "truediv"):
+            B, y, sy, ub, fb = A, x, sx, ua, fa   # the same measurement object on both sides (treated as independent inputs, as the statement says)
+            ctx.count("operand_pairs_that_are_one_object")
         left, right = A, B
         if side == "M-Q":
             right, sy = B.measurand, 0
